@@ -40,7 +40,7 @@ SHARDS = {"quick": 4, "thorough": 16}
 RULE = (
     "(a) complete enumeration, per catalogue operation (17 operations), of (k-th call-out, exception class in {RuntimeError, TypeError, "
     "KeyboardInterrupt, custom BaseException}) for every k up to the dry-run count; (b) Hypothesis histories of 3..20 operations from a "
-    "30-operation alphabet. After each, 15 probes. Non-trivial (a) = the fault fired while jaxtyping held transient state (a context "
+    "31-operation alphabet. After each, 15 probes. Non-trivial (a) = the fault fired while jaxtyping held transient state (a context "
     "pushed, the flatten-mode flag set or a leaf label set; read from the private storage at the moment of the fault, for classification "
     "only); non-trivial (b) = history containing a failing or raising check or a decoration sharing an annotation object; distinct by "
     "(operation, k, exception) resp. operation list."
@@ -703,18 +703,31 @@ def h_address_reuse():
             keep.append(other)
 
 
+def h_pytree_union_inner_structured():
+    """An outer structure-less PyTree whose leaf type is Union[str, <structured PyTree with a '?' axis>]: while the outer check looks
+    for leaves, the inner structured check is tried on containers it does not match.  The outer check passes; nothing of the inner
+    attempt may stay behind (the probes look at '?' outside a PyTree and at the next structured check)."""
+    from typing import Union
+
+    ann = PyTree[Union[str, PyTree[Shaped[np.ndarray, "?n"], "T"]]]
+    assert isinstance(["a", "b"], ann)
+    assert isinstance({"k": ["a"], "j": "b"}, ann)
+    with jaxtyped("context"):
+        assert isinstance(["a", ("b", "c")], ann)
+
+
 HISTORY_OPS = {
     "check-pass": h_check_pass, "check-fail": h_check_fail, "check-raise": h_check_raise, "toplevel-check": h_toplevel_check,
     "pytree-pass": h_pytree_pass, "pytree-fail": h_pytree_fail, "pytree-q-misuse": h_pytree_q_misuse, "pytree-unbound-composite": h_pytree_unbound_composite,
     "decorate-shared-typeguard": h_decorate_shared_tg, "decorate-shared-beartype": h_decorate_shared_bt, "decorate-shared-old": h_decorate_shared_old,
     "generator-old-unpickled": h_generator_old_unpickled, "generator-old-inner-outer": h_generator_old_inner_outer, "generator-old-pytree": h_generator_old_pytree, "generator-new-shared": h_generator_new_shared, "generator-old-fresh": h_generator_old_fresh, "generator-old-shared": h_generator_old_shared,
     "resubscribe": h_resubscribe, "pickle": h_pickle, "hook": h_hook, "hook-exception": h_hook_exception, "config-roundtrip": h_config_roundtrip,
-    "address-reuse": h_address_reuse, "generator-none-suspended": h_generator_none_suspended, "forward-reference-early-call": h_forward_reference_early_call,
+    "pytree-union-inner-structured": h_pytree_union_inner_structured, "address-reuse": h_address_reuse, "generator-none-suspended": h_generator_none_suspended, "forward-reference-early-call": h_forward_reference_early_call,
     "call-ok": h_call_ok, "call-ill": h_call_ill, "call-raises": h_call_raises, "thread-activity": h_thread_activity, "name-format": h_name_format,
 }
 KNOWN_EXCLUDED = {"generator-old-shared"}
 INTERESTING = {"check-fail", "check-raise", "pytree-fail", "pytree-q-misuse", "pytree-unbound-composite", "decorate-shared-typeguard", "decorate-shared-beartype",
-               "decorate-shared-old", "generator-new-shared", "call-ill", "call-raises", "hook-exception", "generator-none-suspended", "forward-reference-early-call", "address-reuse"}
+               "decorate-shared-old", "generator-new-shared", "call-ill", "call-raises", "hook-exception", "generator-none-suspended", "forward-reference-early-call", "address-reuse", "pytree-union-inner-structured"}
 
 
 def reset_shared():
@@ -740,8 +753,14 @@ def run_history(ctx, ops, allow_known=False):
             continue
         todo.append(o)
     try:
-        for o in todo:
-            HISTORY_OPS[o]()
+        for i, o in enumerate(todo):
+            try:
+                HISTORY_OPS[o]()
+            except Violation:
+                raise
+            except BaseException as e:  # noqa: BLE001
+                # every operation is a piece of valid client code that completes on its own: if it fails here, earlier operations did that
+                raise Violation("probe", {"history": todo}, f"operation #{i} '{o}' of history {todo}, which completes when run first, raised {type(e).__name__}: {str(e)[:200]}")
         run_probes({"history": todo}, f"history {todo}")
     finally:
         reset_shared()
